@@ -373,7 +373,13 @@ class Response:
 
         fileno = respiter.filelike.fileno()
         try:
-            offset = os.lseek(fileno, 0, os.SEEK_CUR)
+            # the position of the file object, not of the descriptor: a
+            # buffered file that was read from has its descriptor at the
+            # end of the read-ahead buffer
+            if hasattr(respiter.filelike, 'tell'):
+                offset = respiter.filelike.tell()
+            else:
+                offset = os.lseek(fileno, 0, os.SEEK_CUR)
             if self.response_length is None:
                 filesize = os.fstat(fileno).st_size
                 nbytes = filesize - offset
